@@ -160,7 +160,7 @@ func histVerdicts(ops []histOp) []string {
 		}
 		return "?"
 	}
-	defKind := func(k string) bool { return k == "N" || k == "S" || k == "P" || k == "C" || k == "L" || k == "Z" }
+	defKind := func(k string) bool { return k == "N" || k == "S" || k == "P" || k == "C" || k == "L" || k == "Z" || k == "O" }
 	succeeded := func(k int) bool {
 		r := run.results[k]
 		return strings.HasPrefix(r, "H:") || r == "parseok" || r == "info"
@@ -399,6 +399,17 @@ func genPropHistories(c *caseWriter, stream string, quick bool) {
 					emitH(append(append([]histOp{}, fam...), histOp{kind: "Y", h: 1, name: a}, histOp{kind: "Y", h: 2, name: b}, histOp{kind: "Y", h: 3, name: b}, histOp{kind: "Y", h: 0, name: b}, histOp{kind: "Y", h: 3, name: a}))
 				}
 			}
+		}
+		// configuration calls (CSPCompatible, Option) on one set of a clone family after the clones were taken: the
+		// other sets - and clones taken from THEM later - must not see them
+		{
+			x := names[len(names)-1]
+			fam := append(append([]histOp{}, base...), histOp{kind: "C", h: 0}, histOp{kind: "C", h: 1})
+			emitH(append(append([]histOp{}, fam...), histOp{kind: "Z", h: 0}, histOp{kind: "X", h: 1}, histOp{kind: "Y", h: 2, name: x}, histOp{kind: "X", h: 2}, histOp{kind: "X", h: 0}))
+			emitH(append(append([]histOp{}, fam...), histOp{kind: "Z", h: 1}, histOp{kind: "X", h: 2}, histOp{kind: "Y", h: 0, name: x}, histOp{kind: "X", h: 0}, histOp{kind: "X", h: 1}))
+			opt := append([]histOp{{kind: "N", name: "main"}, {kind: "O", h: 0, name: "missingkey=error"}}, base[1:]...)
+			emitH(append(append([]histOp{}, opt...), histOp{kind: "C", h: 0}, histOp{kind: "O", h: 1, name: "missingkey=zero"}, histOp{kind: "X", h: 1}, histOp{kind: "C", h: 0}, histOp{kind: "X", h: 2}, histOp{kind: "Y", h: 2, name: x}, histOp{kind: "X", h: 0}))
+			emitH(append(append([]histOp{}, opt...), histOp{kind: "C", h: 0}, histOp{kind: "O", h: 0, name: "missingkey=zero"}, histOp{kind: "C", h: 1}, histOp{kind: "X", h: 2}, histOp{kind: "Y", h: 2, name: x}, histOp{kind: "X", h: 1}))
 		}
 		// a handle obtained by Lookup (handle 1), the set executed, the name redefined through t.New (handle 2), then
 		// Parse through the OLD handle (it belongs to a set of its own now): the executed set must not see that definition
